@@ -44,11 +44,11 @@ CHECKS = {
                 text="the reset path is proved: _ConnectionFairy._reset leaves no open transaction for reset_on_return rollback/commit (or was told, under a call-site precondition, that the transaction is already reset) and DefaultDialect.reset_isolation_level restores the engine-wide level; DefaultDialect._set_connection_characteristics schedules exactly one reset finalizer per call behind those already pending (none when the call is refused); ghost txn_open / iso_level per DBAPI connection. Bounded complement: all pool histories on a fake DBAPI incl. multi-call / engine-level execution options.",
                 note="assumed driver contracts (do_rollback/do_commit/_assert_and_set_isolation_level); _finalize_fairy, checkin and Connection.close only in the bounded complement; server-side state outside"),
     "C26": dict(level="proof", technique=PROOF_TECH, design="DESIGN.md §5 C26",
-                text="the _ConnectionRecord layer is proved against a ghost 'closed' flag per DBAPI connection: __connect leaves no half-open record when the creator fails, invalidate/close/__close close what they drop, get_connection never hands out a closed connection nor one that predates a pool-wide or soft invalidation (it is closed and replaced by a fresh one; on failure the record holds nothing), checkin runs every finalizer and returns the record exactly once (never on a double check-in); QueuePool._do_get gives its overflow claim back when the creator fails with ANY exception class (shared with C25). Bounded complement: a fault of four exception classes (DBAPI error, disconnect, plain Exception, BaseException) at every DBAPI call position of every pool history.",
+                text="the _ConnectionRecord layer is proved against a ghost 'closed' flag per DBAPI connection: __connect leaves no half-open record when the creator fails, invalidate/close/__close close what they drop, get_connection never hands out a closed connection nor one that predates a pool-wide or soft invalidation (it is closed and replaced by a fresh one; on failure the record holds nothing), checkin runs every finalizer and returns the record exactly once (never on a double check-in); _checkin_failed (failed checkout) empties the record and hands it back once; QueuePool._do_get gives its overflow claim back when the creator fails with ANY exception class (shared with C25). Bounded complement: a fault of four exception classes (DBAPI error, disconnect, plain Exception, BaseException) at every DBAPI call position of every pool history.",
                 note="assumed externals (_invoke_creator, _close_connection, _return_conn); event hooks do not raise; checkout/_finalize_fairy/pre-ping retry loop bounded only"),
     "C27": dict(level="proof", technique=PROOF_TECH, design="DESIGN.md §5 C27",
-                text="Connection._handle_dbapi_exception is proved on every exit (it never returns): the per-call flags are reset; an error classified as a disconnect (dialect, exit exception, or handle_error listener) leaves the Connection without a DBAPI connection (invalidated) and the pool is told only together with that; an ordinary error invalidates nothing. Connection.invalidate and the closed / invalidated properties are proved against their definitions. The end of life of a root transaction is proved too (RootTransaction._close_impl, _do_commit, _deactivate_from_connection, 148 obligations over all paths incl. the DBAPI rollback/commit raising): it is deactivated and `connection._transaction is not self` on every exit of rollback/close, so an invalidated connection never keeps a dead transaction that would block reconnecting. Bounded complement: a disconnect / ordinary error injected at every DBAPI call position of every history on a fake DBAPI, 4 handle_error listener modes.",
-                note="quick tier: _handle_dbapi_exception without handle_error listeners (66 paths), thorough: all paths; dialect.is_disconnect an arbitrary boolean (real drivers' classification outside); Pool._invalidate and the pooled connection's invalidate assumed not to raise; _revalidate_connection and the pool bounded only"),
+                text="Connection._handle_dbapi_exception is proved on every exit (it never returns): the per-call flags are reset; an error classified as a disconnect (dialect, exit exception, or handle_error listener) leaves the Connection without a DBAPI connection (invalidated) and the pool is told only together with that; an ordinary error invalidates nothing. Connection.invalidate, _revalidate_connection (an invalidated connection gets a fresh DBAPI connection only when no transaction is pending; a closed one never) and the closed / invalidated properties are proved against their definitions. The end of life of a root transaction is proved too (RootTransaction._close_impl, _do_commit, _deactivate_from_connection, 148 obligations over all paths incl. the DBAPI rollback/commit raising): it is deactivated and `connection._transaction is not self` on every exit of rollback/close, so an invalidated connection never keeps a dead transaction that would block reconnecting. Bounded complement: a disconnect / ordinary error injected at every DBAPI call position of every history on a fake DBAPI, 4 handle_error listener modes.",
+                note="quick tier: _handle_dbapi_exception without handle_error listeners (66 paths), thorough: all paths; dialect.is_disconnect an arbitrary boolean (real drivers' classification outside); Pool._invalidate and the pooled connection's invalidate assumed not to raise; the pool bounded only"),
     "C28": dict(level="proof", technique=PROOF_TECH, design="DESIGN.md §5 C28",
                 text="_ClsLevelDispatch.update_subclass is proved for any MRO and any prior registry state: afterwards the target's collection holds, after what it held, every listener of every ancestor that has a collection, nothing else, and every other class's collection is untouched (loop invariant over the MRO). The exec-once family of _CompoundListener (_exec_once_impl, exec_once, exec_once_unless_exception) is proved in the monitor-with-interference reading: with two ghost counters (successful dispatches, final failures) the invariant `ok + final <= 1 and _exec_once == (ok + final == 1)` holds at every release of the exec-once mutex whatever other threads do (counters monotone: rely/guarantee), so exec_once dispatches at most once overall and nothing dispatches again after a success. Bounded complement: listen/remove/dispatch histories against a ghost registry, incl. nested and concurrent (two threads, forced schedule) dispatches of once listeners.",
                 note="other listener containers (_ListenerCollection, _EventKey, registry), util.only_once and _exec_w_sync_on_first_run bounded only; WeakKeyDictionary modelled as dict; interleaving granularity = statements outside the mutex"),
@@ -59,8 +59,8 @@ CHECKS = {
                 text="the instrumented list operations with an integer index (append, insert, remove, __setitem__, __delitem__, pop) and extend / += / clear are proved to produce list's contents, return value and exception and exactly the right ghost event log, for lists of any length; remove(absent) firing an event is a KNOWN-FINDING. All 13 instrumented set operations (add, discard, remove, pop, clear, update, difference_update, intersection_update, symmetric_difference_update, |= -= &= ^=) are proved for set arguments: members as the builtin's, and an event log that accounts exactly (order-insensitively for the bulk operations) for the members that arrived and left; dict __setitem__, __delitem__, pop, popitem, setdefault, clear likewise (events over the values). Bounded complement: all list/set/dict operations incl. slices side by side with the builtins.",
                 note="assumed contracts on the event helpers __set/__set_wo_mutation/__del; list slices, dict update(**kw) and non-set iterable arguments bounded only"),
     "C35": dict(level="proof", technique=PROOF_TECH, design="DESIGN.md §5 C35",
-                text="the five InstanceState lifecycle predicates are proved equal to their documented definitions over (key is None, _attached, _deleted) and the partition (exactly one holds) is a full-domain lemma over those postconditions; native replay on all 8 valuations.",
-                note="transitions and events are not under contract here; `_attached` is read as a boolean attribute"),
+                text="the five InstanceState lifecycle predicates are proved equal to their documented definitions over (key is None, _attached, _deleted) and the partition (exactly one holds) is a full-domain lemma over those postconditions; native replay on all 8 valuations. The transitions out of the session (InstanceState._detach_states) are proved: afterwards no state is attached, identity keys are dropped exactly when to_transient asks for it, and the lifecycle events fired account exactly for the states that were persistent / deleted / pending. Bounded complement: all histories of session operations on one or two objects (incl. cascades) against the documented automaton.",
+                note="other transitions and events are bounded only; `_attached` is read as a boolean attribute; rollback of a flushed-deleted new object excluded by precondition"),
     "C43": dict(level="proof", technique=PROOF_TECH, design="DESIGN.md §5 C43",
                 text="the AND / OR / NOT evaluator closures are proved against SQL three-valued truth tables for clause lists of any length with arbitrary pure sub-evaluators; the known AND defect is reported as KNOWN-FINDING and every input outside its class is proved.",
                 note="oracle: SQL 3VL; sub-evaluators pure; _NO_OBJECT not judged; synchronize_session plumbing and the database are outside"),
